@@ -37,7 +37,7 @@ fn readers(case: &Case) -> Vec<DescribedReader> {
     case.files
         .iter()
         .enumerate()
-        .map(|(i, rows)| DescribedReader::from_string(format!("file{i}.csv"), csv_text(rows)))
+        .map(|(i, rows)| DescribedReader::from_string(format!("file{i}.csv"), csv_text_variant(rows, case.hdr.get(i).cloned().unwrap_or(0))))
         .collect()
 }
 
@@ -176,7 +176,7 @@ fn costs_table(t: &RenderTable, yearly: bool) -> Value {
     json!({"secs": secs, "rows": rows, "notes": t.notes.iter().map(|n| clean(n)).collect::<Vec<_>>()})
 }
 
-fn model_json(r: &AppRenderResult) -> Value {
+pub fn model_json(r: &AppRenderResult) -> Value {
     let mut secs: Vec<(&String, &RenderTable)> = r.security_tables.iter().collect();
     secs.sort_by(|a, b| a.0.cmp(b.0));
     let tables: Vec<Value> = secs
